@@ -156,7 +156,7 @@ def hexbytes(b):
     return ', '.join('0x%02x' % x for x in b) or '0'
 
 
-def gen_program(fn, contract, db, inputs_bytes):
+def gen_program(fn, contract, db, inputs_bytes, rm=None):
     S = db['structs']
     lines = ['// generated replay: real AVEL code on a verifier counterexample',
              '#include <avel/Avel.hpp>', '#include <avel/Aligned_allocator.hpp>', '#include <cstring>', '#include <cstdio>', '#include <cstdint>',
@@ -166,8 +166,12 @@ def gen_program(fn, contract, db, inputs_bytes):
     for nm in struct_order(S):
         lines.append('typedef struct %s { %s } %s;' % (nm, ' '.join(Emitter.decl(t, f) + ';' for f, t in S[nm]), nm))
     lines.append('template<class A, class B> static void cp(A& a, const B& b) { static_assert(sizeof(A) == sizeof(B), "twin size"); std::memcpy(&a, &b, sizeof(A)); }')
+    lines.append('#include <cfenv>')
+    lines.append('#include <xmmintrin.h>')
     lines.append('int main() {')
     lines.append('  int fails = 0;')
+    lines.append('  std::fesetround(%s);' % {0: 'FE_TONEAREST', 1: 'FE_DOWNWARD', 2: 'FE_UPWARD', 3: 'FE_TOWARDZERO'}.get(rm if rm is not None else 0, 'FE_TONEAREST'))
+    lines.append('  const unsigned csr_before = _mm_getcsr() & ~0x3fu; const int rm_before = std::fegetround();')
     callargs = {}
     has_this = fn['kind'] in ('method', 'conv') and not fn.get('static')
     if has_this:
@@ -209,6 +213,7 @@ def gen_program(fn, contract, db, inputs_bytes):
     for i, p in enumerate(fn['params']):
         if p['ref']:
             lines.append('  cp(%s_post_o, a%d_real);' % (p['name'], i))
+    lines.append('  if ((_mm_getcsr() & ~0x3fu) != csr_before || std::fegetround() != rm_before) { std::printf("ENSURES FAILED: floating-point environment (MXCSR / rounding mode) not left as found\\n"); fails++; }')
     for lab, e in contract.ensures:
         ee = old_subst(e)
         if fn.get('ret_ref'):
@@ -351,10 +356,28 @@ def match_known(ob, known):
 def residual_requires(ob, k):
     """C expression excluding the finding's input region for this function instantiation, or None when the region
     covers the whole domain (e.g. store<N> with N < W).  Placeholders: {pI} parameter I, {tI} template argument I, {W}."""
+    fn = ob.fn
+    if k.get('residual_lane'):
+        # per-lane region: {x}, {y} are the bit patterns of lane i of parameters 0 and 1, {fx}, {fy} the float values
+        S = ob.result.get('_structs') or {}
+        import pipeline as _P
+        db = _P.load_db(ob.cfgs[0])
+        c = families.Ctx(fn, db)
+        t = c.PT[0]
+        parts = []
+        for i in range(t.W or 1):
+            ctx = {'x': t.lane(c.a(0), i), 'fx': t.flane(c.a(0), i) if t.isfloat else ''}
+            if len(c.P) > 1 and c.PT[1].elem:
+                t1 = c.PT[1]
+                ctx['y'] = t1.lane(c.a(1), i)
+                ctx['fy'] = t1.flane(c.a(1), i) if t1.isfloat else ''
+                ctx['sy'] = 'spec_sx(%s, %d)' % (t1.lane(c.a(1), i), t1.bits)
+            ctx['B'] = '32' if t.bits == 32 else '64'
+            parts.append('(' + k['residual_lane'].format(**ctx) + ')')
+        return ' && '.join(parts)
     tmpl = k.get('residual_requires')
     if not tmpl:
         return None
-    fn = ob.fn
     t = None
     for p in fn['params']:
         tt = families.T(p['ctype'].rstrip('*'), {})
@@ -411,7 +434,8 @@ def record_and_replay(prop, ob, db, sc):
                 if var in inputs:
                     ib[var] = merge_assignments(var, inputs[var], ct, S)
             rec['inputs_hex'] = {k: v.hex() for k, v in ib.items()}
-            rm = inputs.get('__CPROVER_rounding_mode', {}).get('__CPROVER_rounding_mode', {}).get('data')
+            rmv = (inputs.get('rm_in', {}) or {}).get('rm_in', {}) or {}
+            rm = int(rmv['bin'], 2) if rmv.get('bin') else None
             rec['rounding_mode'] = rm
             if getattr(ob.contract, 'mem', None):
                 ini = inputs.get('init', {}).get('init')
@@ -425,7 +449,7 @@ def record_and_replay(prop, ob, db, sc):
                 rec['n'] = n_value
                 prog = gen_mem_program(fn, ob.contract, db, ib, n_value)
             else:
-                prog = gen_program(fn, ob.contract, db, ib)
+                prog = gen_program(fn, ob.contract, db, ib, rm)
             rec['program'] = prog
             res = build_and_run(prog, ob.cfgs[0], sc.path('replay-' + tag))
             rec['replay'] = res
